@@ -23,6 +23,10 @@ returned when the feeding discipline shows it, and the bytes the delivered objec
   concatenating to the image.
 * `checkClean`   a clean consecutive run of such lines, possibly with non-graphics lines between, yields exactly one
   image per run, equal to what was sent, at the run's last line.
+* `checkEncAll`, `checkCleanAll`  the same for ONE call that carries several images (several states of one message,
+  several messages): per image in message order, per id in order, one clean run of that image's own format,
+  dimensions, offset and bytes, and one delivery equal to that image (`Lemmas/GfxMsgs.lean` proves that on a single
+  image they are `checkEnc` / `checkClean`).
 -/
 namespace RawPanelVerif.Spec.Gfx
 open RawPanelVerif
@@ -346,5 +350,45 @@ exactly one delivery per run, equal to what was sent, at the run's last line -/
 def checkClean (g : Sent) (ids : List Nat) (lines : List Bytes) (ds : List Deliv) : Option String :=
   if !cleanRuns g ids lines then none
   else cleanLoop g ((groups (gfxLines lines)).zip ids) ds 0
+
+/-! ## several images in one call
+
+One call of the encoder may carry several messages, each with several states, each state with its own image and target
+ids.  What must come out is, per image in message order and per target id in order, one clean run of THAT image
+(format, dimensions, offset and bytes of its own state); nothing for an empty image or an empty target list. -/
+
+/-- the transfers a call must emit: `(image, target id)` per image in message order, per id in order -/
+def runsOf (imgs : List (Sent × List Nat)) : List (Sent × Nat) :=
+  imgs.flatMap (fun gi => if gi.1.data.isEmpty then [] else gi.2.map (fun id => (gi.1, id)))
+
+/-- the graphics lines of the history are exactly the demanded transfers, in order, each a clean run of its own image -/
+def cleanRunsAll (imgs : List (Sent × List Nat)) (lines : List Bytes) : Bool :=
+  let gs := groups (gfxLines lines)
+  gs.length == (runsOf imgs).length &&
+    (gs.zip (runsOf imgs)).all (fun (grp, r) => isRun r.1 (decimal r.2) (grp.map (·.2)))
+
+/-- the encoder's output for a whole call: only graphics lines, one clean run per image and id -/
+def checkEncAll (imgs : List (Sent × List Nat)) (lines : List Bytes) : Option String :=
+  if !lines.all (fun l => (parseLine l).isSome) then some "enc-not-chunk-line"
+  else if !cleanRunsAll imgs lines then some "enc-not-clean-run"
+  else none
+
+/-- `cleanLoop` with the image of each run -/
+def cleanLoopAll : List (List (Nat × Chunk) × (Sent × Nat)) → List Deliv → Nat → Option String
+  | [], [], _ => none
+  | [], _ :: _, j => some s!"extra-delivery@{j}"
+  | _ :: _, [], j => some s!"missing-delivery@{j}"
+  | (grp, r) :: more, d :: ds, j =>
+    if !sameImage r.1 r.2 d.img then some s!"wrong-image@{j}"
+    else if d.final != r.1.data then some s!"altered@{j}"
+    else match d.pos, grp.getLast? with
+      | some p, some (q, _) => if p = q then cleanLoopAll more ds (j + 1) else some s!"not-at-last-line@{j}"
+      | _, _ => cleanLoopAll more ds (j + 1)
+
+/-- given that the history's graphics lines are the clean runs of the call's images (else `none`: nothing demanded):
+exactly one delivery per run, in order, equal to the image of that run, at the run's last line -/
+def checkCleanAll (imgs : List (Sent × List Nat)) (lines : List Bytes) (ds : List Deliv) : Option String :=
+  if !cleanRunsAll imgs lines then none
+  else cleanLoopAll ((groups (gfxLines lines)).zip (runsOf imgs)) ds 0
 
 end RawPanelVerif.Spec.Gfx
